@@ -2,6 +2,8 @@ package main
 
 import (
 	"fmt"
+	"go/ast"
+	"go/constant"
 	"go/token"
 	"go/types"
 	"os"
@@ -44,9 +46,30 @@ func loadWorld() *World {
 	if u := os.Getenv("MQVC_UNROLL"); u != "" {
 		fmt.Sscan(u, &w.unroll)
 	}
+	w.scanGlobalInits(pkgs[0])
 	w.contracts, err = readContracts(repoDir + "/contracts_verif.go")
 	if err != nil {
 		fatal("contracts: %v", err)
+	}
+	// expand type invariants over the exported methods of the receiver type
+	for _, ti := range typeInvariants {
+		var names []string
+		for name, fn := range w.funcs {
+			if strings.HasPrefix(name, ti.Recv+".") && fn.Signature.Recv() != nil && ast.IsExported(fn.Name()) && fn.Synthetic == "" {
+				names = append(names, name)
+			}
+		}
+		sort.Strings(names)
+		for _, name := range names {
+			c := w.contracts[name]
+			if c == nil {
+				c = &Contract{Func: name, Loops: map[int]*LoopContract{}, Inline: true}
+				w.contracts[name] = c
+			}
+			c.Requires = append(c.Requires, ti.Clause)
+			c.Ensures = append(c.Ensures, ti.Clause)
+			w.invariantMethods = append(w.invariantMethods, name)
+		}
 	}
 	for name := range w.contracts {
 		if w.funcs[name] == nil {
@@ -75,6 +98,9 @@ func (w *World) buildVC(fn *ssa.Function) *VC {
 		v := fr.havoc(p.Type(), "p_"+p.Name())
 		fr.vals[p] = v
 		fr.params[p.Name()] = v
+		if i == 0 && fn.Signature.Recv() != nil {
+			fr.params["self"] = v
+		}
 		if i == 0 && fn.Signature.Recv() != nil && isPtrT(p.Type()) {
 			vc.assume(neq(v.L[0], "0")) // a method is verified for non-nil receivers
 			vc.assume(le(intLit(staticEnd), v.L[0]))
@@ -110,6 +136,36 @@ func (w *World) globalAssumptions(vc *VC, fr *Frame) {
 			}
 		}
 	}
+	var gs []*ssa.Global
+	for g := range w.arrInit {
+		gs = append(gs, g)
+	}
+	sort.Slice(gs, func(i, j int) bool { return gs[i].Name() < gs[j].Name() })
+	for _, g := range gs {
+		at := elemOf(g.Type()).Underlying().(*types.Array)
+		lf := flatten(at.Elem())[0]
+		rememberLeaf(lf)
+		base := w.globalAddr(g)
+		for i, e := range w.arrInit[g] {
+			vc.assume(eq(sel(vc.arr(fr.st, lf), intLit(base+int64(i))), e))
+		}
+	}
+	gs = nil
+	for g := range w.strInit {
+		gs = append(gs, g)
+	}
+	sort.Slice(gs, func(i, j int) bool { return gs[i].Name() < gs[j].Name() })
+	for _, g := range gs {
+		s := w.strInit[g]
+		v := fr.load(intLit(w.globalAddr(g)), elemOf(g.Type()))
+		data := w.strLitAddr("\x00slice:" + g.Name() + ":" + s)
+		vc.assume(and(eq(v.L[0], intLit(data)), eq(v.L[1], intLit(int64(len(s)))), eq(v.L[2], intLit(int64(len(s))))))
+		u8 := flatten(types.Typ[types.Uint8])[0]
+		rememberLeaf(u8)
+		for i := 0; i < len(s); i++ {
+			vc.assume(eq(sel(vc.arr(fr.st, u8), intLit(data+int64(i))), bvLit(uint64(s[i]), 8)))
+		}
+	}
 	if g, ok := w.pkg.Members["ErrMissingData"].(*ssa.Global); ok {
 		v := fr.load(intLit(w.globalAddr(g)), elemOf(g.Type()))
 		vc.assume(gt(v.L[0], "0"))
@@ -117,7 +173,63 @@ func (w *World) globalAssumptions(vc *VC, fr *Frame) {
 	}
 }
 
-func (w *World) stringerArrays() {}
+// scanGlobalInits records the constant initial contents of package-level
+// arrays (`var x = [...]T{c0, c1, ...}`) and byte slices (`var x = []byte("lit")`).
+func (w *World) scanGlobalInits(pkg *packages.Package) {
+	w.arrInit = map[*ssa.Global][]string{}
+	w.strInit = map[*ssa.Global]string{}
+	for _, f := range pkg.Syntax {
+		for _, d := range f.Decls {
+			gd, ok := d.(*ast.GenDecl)
+			if !ok || gd.Tok != token.VAR {
+				continue
+			}
+			for _, sp := range gd.Specs {
+				vs := sp.(*ast.ValueSpec)
+				if len(vs.Names) != len(vs.Values) {
+					continue
+				}
+				for i, name := range vs.Names {
+					g, ok := w.pkg.Members[name.Name].(*ssa.Global)
+					if !ok {
+						continue
+					}
+					switch v := vs.Values[i].(type) {
+					case *ast.CompositeLit:
+						at, ok := elemOf(g.Type()).Underlying().(*types.Array)
+						if !ok {
+							continue
+						}
+						l, okn := numLeaf(at.Elem())
+						if !okn {
+							continue
+						}
+						var elts []string
+						good := true
+						for _, e := range v.Elts {
+							tv, ok := pkg.TypesInfo.Types[e]
+							if !ok || tv.Value == nil {
+								good = false
+								break
+							}
+							n, _ := constant.Int64Val(constant.ToInt(tv.Value))
+							elts = append(elts, intToLeaf(l, intLit(n)))
+						}
+						if good && int64(len(elts)) == at.Len() {
+							w.arrInit[g] = elts
+						}
+					case *ast.CallExpr:
+						if len(v.Args) == 1 {
+							if tv, ok := pkg.TypesInfo.Types[v.Args[0]]; ok && tv.Value != nil && tv.Value.Kind() == constant.String && isSliceT(elemOf(g.Type())) {
+								w.strInit[g] = constant.StringVal(tv.Value)
+							}
+						}
+					}
+				}
+			}
+		}
+	}
+}
 
 func main() {
 	if len(os.Args) < 2 {
